@@ -281,7 +281,7 @@ def router_routes(ck):
     RX = C16.RX
     # two hops: the first is a registered pair whose simulation of 1 unit returns any amount (0 included), the second is not registered
     def body2(it):
-        c = it.ctx; C16.router_setup(it)
+        c = it.ctx; C15.router_world(it); it.world.cinfo = dict(code_id=7, creator='deployer', admin='owner')
         a, b, d = UNIVERSE[0], UNIVERSE[1], UNIVERSE[3]
         it.world.smart_table.append(('factory_contract', it.mkv(FQ, 'Pair', asset_infos=Agg('array', [ainfo(it, a), ainfo(it, b)])), pair_info_answer(it, 'the_pair', a, b)))
         it.world.smart_table.append(('factory_contract', it.mkv(FQ, 'Pair', asset_infos=Agg('array', [ainfo(it, b), ainfo(it, d)])), Opaque('query_error')))
@@ -297,7 +297,7 @@ def router_routes(ck):
     ck.require(n >= 1, 'router add routes (2 hops): no path')
     for registered in (True, False):
         def body(it, registered=registered):
-            c = it.ctx; C16.router_setup(it)
+            c = it.ctx; C15.router_world(it); it.world.cinfo = dict(code_id=7, creator='deployer', admin='owner')
             a, b = UNIVERSE[0], UNIVERSE[1]
             fq = it.mkv(FQ, 'Pair', asset_infos=Agg('array', [ainfo(it, a), ainfo(it, b)]))
             it.world.smart_table.append(('factory_contract', fq, pair_info_answer(it, 'the_pair', a, b) if registered else Opaque('query_error')))
